@@ -274,6 +274,10 @@ pub fn opcode_name(b: u8) -> Option<&'static str> {
     })
 }
 
+pub fn opcode_name_to_byte(name: &str) -> Option<u8> {
+    (0u16..=255).map(|b| b as u8).find(|b| opcode_name(*b) == Some(name))
+}
+
 #[cfg(test)]
 mod tests {
     use super::*;
